@@ -147,8 +147,18 @@ impl<'a, P: ?Sized + PathImpl> PathMutImpl<'a, P> {
 				i -= 1
 			}
 
-			replace(self.buffer, i..self.end, &[]);
-			self.end = i;
+			// AMBIGUITY: When the first segment is empty and the second one
+			//            is removed, `//foo` would become `/`, dropping the
+			//            empty segment.
+			// SOLUTION:  We change it to `/./`, as `parent` does.
+			let rest: &[u8] = if i == start && self.buffer[i] == b'/' {
+				b"./"
+			} else {
+				b""
+			};
+
+			replace(self.buffer, i..self.end, rest);
+			self.end = i + rest.len();
 			true
 		} else {
 			false
